@@ -60,6 +60,9 @@ BUS = 'org.freedesktop.DBus'
 BUSPATH = '/org/freedesktop/DBus'
 
 WELL_KNOWN = ['org.ex.A', 'org.ex.B']
+# names a client can ask for that coincide with strings the bus treats specially: the unchanged bus grants them
+# (RequestName('org.freedesktop.DBus') answers 1); whoever holds them must still never see a message addressed to the bus
+SPECIAL_NAMES = [BUS, 'org.freedesktop.DBus.Local']
 IFACES = ['org.ex.I', 'org.ex.J']
 MEMBERS = ['Foo', 'Bar']
 PATHS = ['/x', '/y']
@@ -673,10 +676,17 @@ def oracle(net):
                 if r is not None:
                     held[i].append(r)
             if fw:
-                holders = [j for j in receivers if held[j] or dead_rules[j]]
-                key = 'bus-call-routed-to-rule-holders' if len(holders) == len(receivers) else 'bus-call-forwarded'
-                add(key, 'a message addressed to the bus itself was delivered to connection(s) %s' % receivers,
-                    receivers, [])
+                holders = [j for j in receivers
+                           if any(rule_matches_spec(r, mprime) for r in held[j] + dead_rules[j])]
+                if len(holders) == len(receivers):
+                    key = 'bus-call-routed-to-rule-holders'
+                elif m['t'] == 1:
+                    key = 'bus-call-forwarded'
+                else:
+                    key = 'bus-addressed-message-forwarded'
+                add(key, 'a message (type %d) addressed to the bus itself was delivered to connection(s) %s%s'
+                    % (m['t'], receivers, '; connection %s holds the NAME org.freedesktop.DBus' % st.heads[BUS]
+                       if BUS in st.heads else ''), receivers, [])
             if m['t'] == 1:
                 reps = [(j, d) for j, d in bo if d['t'] in (2, 3) and d['rs'] == m['serial']]
                 mine = [1 for j, d in reps if j == i]
@@ -856,6 +866,27 @@ def interleavings(nclients, maxlen):
             yield ops
 
 
+def bus_name_holder_histories(maxlen=2):
+    """Client 1 holds the NAME org.freedesktop.DBus (and org.freedesktop.DBus.Local), client 2 a rule; every sequence
+    of at most `maxlen` messages of the four types addressed to 'org.freedesktop.DBus' (and one to the other special
+    name, which IS an ordinary destination) by the three clients."""
+    base, serial = setup3(3)
+    base = base + [['req', 1, serial, BUS, 0, 0], ['req', 1, serial + 1, SPECIAL_NAMES[1], 0, 0],
+                   ['match', 2, serial + 2, {'interface': 'org.ex.I'}, 0]]
+    serial += 3
+
+    def mk(i, t, k, ser):
+        if t == 0:
+            return ['msg', i, dict(t=4, serial=ser, dest=SPECIAL_NAMES[1], path='/x', iface='org.ex.I', member='Foo',
+                                   body='s')]
+        return ['msg', i, dict(t=t, serial=ser, dest=BUS, forged=BUS, path='/x', iface='org.ex.I', member='Foo',
+                               rs=3, err='org.ex.Error', body='s', flags=(1 if t == 1 and k else 0))]
+    alphabet = [(i, t) for i in range(3) for t in (0, 1, 2, 3, 4)]
+    for ln in range(1, maxlen + 1):
+        for seq in itertools.product(alphabet, repeat=ln):
+            yield base + [mk(i, t, x, serial + x) for x, (i, t) in enumerate(seq)]
+
+
 def body_histories():
     for key in BODY_KEYS:
         for t in (1, 2, 3, 4):
@@ -893,10 +924,12 @@ def random_msg(rng, i, nconn, serial, typed):
         dest = None
     elif r < 0.03:
         dest = ''
-    elif r < 0.06 and t != 1:
+    elif r < 0.10:
         dest = BUS
-    elif r < 0.09 and (t == 4 or not typed):
+    elif r < 0.13 and (t == 4 or not typed):
         dest = None
+    elif r < 0.15:
+        dest = SPECIAL_NAMES[1]
     else:
         dest = rng.choice(dests)
     forged = None
@@ -941,10 +974,11 @@ def random_history(rng, length):
             ops.append(['disc', i])
             alive.remove(i)
         elif r < 0.24:
-            ops.append(['req', i, serial, rng.choice(WELL_KNOWN), rng.randrange(8), rng.choice([0, 0, 0, 1]),
+            ops.append(['req', i, serial, rng.choice(WELL_KNOWN * 3 + SPECIAL_NAMES), rng.randrange(8),
+                        rng.choice([0, 0, 0, 1]),
                         rng.choice([None, None, '@%d' % rng.randrange(nconn)])])
         elif r < 0.30:
-            ops.append(['rel', i, serial, rng.choice(WELL_KNOWN), rng.choice([0, 0, 1])])
+            ops.append(['rel', i, serial, rng.choice(WELL_KNOWN * 3 + SPECIAL_NAMES), rng.choice([0, 0, 1])])
         elif r < 0.42:
             ops.append(['match', i, serial, random_rule(rng, typed), rng.choice([0, 0, 1])])
         elif r < 0.50:
@@ -968,6 +1002,13 @@ def random_history(rng, length):
 
 
 EXEMPLARS = {
+    # seeded change C14d: a client holding the NAME org.freedesktop.DBus must not receive what others address to the bus
+    'bus-name-held-by-a-client': [['connect'], ['connect'], ['hello', 0, 1], ['hello', 1, 2], ['req', 1, 3, BUS, 0, 0],
+                                  ['msg', 0, dict(t=4, serial=4, dest=BUS, path='/x', iface='org.ex.I', member='Foo',
+                                                  body='s')],
+                                  ['msg', 0, dict(t=2, serial=5, dest=BUS, rs=3, body='none')],
+                                  ['msg', 0, dict(t=3, serial=6, dest=BUS, rs=3, err='org.ex.Error', body='none')],
+                                  ['msg', 0, dict(t=1, serial=7, dest=BUS, path='/x', member='Foo', body='none')]],
     # F20 (256784c): any message received by the bus raised TypeError
     'bus-parse-typeerror': [['connect'], ['hello', 0, 1]],
     # F33 (6ba9f66): UInt64(2**40) inside a variant died in the bus's re-encoding
@@ -1103,13 +1144,15 @@ def run(ctx):
     for n, ln in plans:
         for ops in interleavings(n, ln):
             go('interleavings-exhaustive', ops)
+    for ops in bus_name_holder_histories():
+        go('interleavings-exhaustive', ops)
     ctx.exhaustive = True
     ctx.note('interleavings enumerated: %s (clients, max messages) over %d message kinds' % (plans, len(KINDS)))
 
     for ops in body_histories():
         go('bodies-reencode', ops)
 
-    n = ctx.scale(quick=450, thorough=9000)
+    n = ctx.scale(quick=400, thorough=9000)
     for k in range(n):
         ln = ctx.rng.choice([8, 12, 20, 30, 45, 60])
         go('histories-random', random_history(ctx.rng, ln))
